@@ -156,10 +156,38 @@ def program_sweep(h, P, rng, limit):
     return ops, impl[-1].split(" | ")[1] if " | " in impl[-1] else None
 
 
+def gen_builder_session(rng, n):
+    ops = ["b reset"]
+    labels = 0
+    for _ in range(n):
+        r = rng.random()
+        m = rng.random()
+        mask = (1 << rng.randrange(0, 3)) if m < 0.45 else (rng.randrange(0, 8) if m < 0.6 else 0)
+        if r < 0.30:
+            ops.append("b %x emit %d %d" % (mask, rng.randrange(0, 4), rng.randrange(0, 2)))
+        elif r < 0.45:
+            ops.append("b %x newlabel" % mask)
+            labels += 1
+        elif r < 0.55:
+            ops.append("b %x clabel" % mask)
+            labels += 1
+        elif r < 0.72:
+            ops.append("b %x bind %d" % (mask, rng.randrange(0, labels + 2)))
+        elif r < 0.78:
+            ops.append("b %x align %d" % (mask, rng.choice((1, 4, 16, 64))))
+        elif r < 0.86:
+            ops.append("b %x embed %d" % (mask, rng.choice((0, 1, 8, 100, 3000))))
+        elif r < 0.93:
+            ops.append("b %x elabel %d" % (mask, rng.randrange(0, labels + 2)))
+        else:
+            ops.append("b %x comment %d" % (mask, rng.choice((0, 0, 1, 5, 40))))
+    return ops
+
+
 def split_sessions(ops):
     out, cur = [], []
     for o in ops:
-        if o == "o reset" and cur:
+        if o in ("o reset", "b reset") and cur:
             out.append(cur)
             cur = []
         cur.append(o)
@@ -169,7 +197,7 @@ def split_sessions(ops):
 
 
 def mon_lines(ops, impl):
-    return ["m " + o[2:] + " => " + a for o, a in zip(ops, impl)]
+    return [("mb " if o.startswith("b ") else "m ") + o[2:] + " => " + a for o, a in zip(ops, impl)]
 
 
 def ops_stage(res, h, ops, dist):
@@ -201,7 +229,7 @@ def ops_stage(res, h, ops, dist):
     bad = [i for i, m in enumerate(mon) if m != "good"]
     if bad or len(mon) != len(ops):
         i = bad[0] if bad else len(mon)
-        sess_start = max(j for j in range(i + 1) if ops[j] == "o reset")
+        sess_start = max(j for j in range(i + 1) if ops[j] in ("o reset", "b reset"))
         sess = ops[sess_start:i + 1]
 
         def is_bad(c):
@@ -217,7 +245,7 @@ def ops_stage(res, h, ops, dist):
     d = vlib.first_diff(impl, model)
     # a correspondence difference is reported unless a monitor violation at or before that line already explains it
     if d is not None and (not bad or d < bad[0]):
-        sess_start = max(j for j in range(d + 1) if ops[j] == "o reset")
+        sess_start = max(j for j in range(d + 1) if ops[j] in ("o reset", "b reset"))
         res.violation("correspondence: model and real code differ at op %r: impl=%s model=%s (the monitor accepts the real code's answers)" % (
             ops[d], impl[d][:300] if d < len(impl) else "-", model[d][:300] if d < len(model) else "-"),
             {"ops": ops[sess_start:d + 1], "correspondence": "Model/Fault.lean step vs harness/c15.cpp ops_step"}, found_input=False, key="corr")
@@ -365,6 +393,8 @@ def run(res):
     ops = []
     for i in range(nsess):
         ops += gen_session(rng, rng.choice((10, 25, 45))) if i % 3 else gen_retry_session(rng, rng.choice((6, 12)))
+        if i % 4 == 0:
+            ops += gen_builder_session(rng, rng.choice((15, 40)))
     ops_ok = ops_stage(res, h, ops, dist)
     # the assembler workload's shape at the level of the model: every request of the program fails once, the failed call is
     # repeated; model = real code on every line, and every session must end in the failure-free state (runRetry_eq_specRun)
